@@ -60,12 +60,13 @@ static void build_object(ezc3d::c3d& c, Built& B) {
     const char* existing[] = {"USED", "SCALE", "RATE", "DATA_START", "FRAMES", "LABELS", "DESCRIPTIONS", "UNITS"};
     for (int i = 0; i < 8; ++i) __vp_assume(up != existing[i]);
   }
+  const float prate = __vp_cfg("prate4") ? (float)__vp_cfg("prate4") / 4.f : 100.f;   // POINT:RATE in quarter-Hz steps (0: 100 Hz)
   const int norate = __vp_cfg("norate");   // analog-only content without a POINT:RATE (only meaningful with S == 1)
   bool lockgrp = false;
   // construction orders
   if (order == 0) {
-    if (!norate) set_rate(c, "POINT", 100.f);
-    if (C) set_rate(c, "ANALOG", 100.f * S);
+    if (!norate) set_rate(c, "POINT", prate);
+    if (C) set_rate(c, "ANALOG", prate * S);
     for (int i = 0; i < P; ++i) c.point(pn[i]);
     for (int i = 0; i < C; ++i) c.analog(an[i]);
     if (ex_type) c.parameter(grp, ex);
@@ -74,14 +75,14 @@ static void build_object(ezc3d::c3d& c, Built& B) {
     if (ex_type) c.parameter(grp, ex);
     for (int i = 0; i < C; ++i) c.analog(an[i]);
     for (int i = 0; i < P; ++i) c.point(pn[i]);
-    if (C) set_rate(c, "ANALOG", 100.f * S);
-    if (!norate) set_rate(c, "POINT", 100.f);
+    if (C) set_rate(c, "ANALOG", prate * S);
+    if (!norate) set_rate(c, "POINT", prate);
     for (int f = 0; f < F; ++f) c.frame(frames[f], f);           // indexed store at the current end (extends by one)
     if (F > 1) c.frame(frames[F - 1], F - 1);                    // and an indexed replace with the same content
     if (ex_type && ex_group != 1) { c.lockGroup(grp); lockgrp = true; }
   } else {
-    if (!norate) set_rate(c, "POINT", 100.f);
-    if (C) set_rate(c, "ANALOG", 100.f * S);
+    if (!norate) set_rate(c, "POINT", prate);
+    if (C) set_rate(c, "ANALOG", prate * S);
     for (int i = 0; i < C; ++i) c.analog(an[i]);                  // channels must be declared (documented); points need not
     for (int f = 0; f < F; ++f) c.frame(frames[f]);               // points not declared: the first frame declares them
     if (F > 1) c.frame(frames[0], 0);                            // replace in place with the same content
